@@ -10,13 +10,16 @@ package main
 import (
 	"context"
 	"encoding/json"
+	"errors"
 	"fmt"
 	"io"
 	"log/slog"
+	"net"
 	"strings"
 	"sync"
 	"testing"
 	"testing/synctest"
+	"time"
 
 	"github.com/KafScale/platform/pkg/metadata"
 	"github.com/KafScale/platform/pkg/protocol"
@@ -655,6 +658,220 @@ func c28FirstFail(rs []c28Result) (int, bool) {
 	return -1, false
 }
 
+
+// ---------------- connection stream ----------------
+// The real handleConnection over net.Pipe: a store whose Metadata call can be made to fail
+// per request, and a live TCP backend that would answer Metadata / FindCoordinator with
+// ITS OWN identity if the proxy ever handed such a request to it.
+type c28ConnStep struct {
+	Req       c28Case `json:"req"`                  // Kind / Version / All / Topics
+	StoreFail string  `json:"store_fail,omitempty"` // "" | "error" | "timeout"
+}
+type c28Conn struct {
+	Snapshot c28Cluster    `json:"snapshot"`
+	Host     string        `json:"host"`
+	Port     int32         `json:"port"`
+	Steps    []c28ConnStep `json:"steps"`
+}
+
+type c28FailStore struct {
+	metadata.Store
+	mu   sync.Mutex
+	mode string
+}
+
+func (f *c28FailStore) Metadata(ctx context.Context, topics []string) (*metadata.ClusterMetadata, error) {
+	f.mu.Lock()
+	m := f.mode
+	f.mu.Unlock()
+	switch m {
+	case "error":
+		return nil, errors.New("etcdserver: request timed out")
+	case "timeout":
+		return nil, context.DeadlineExceeded
+	}
+	return f.Store.Metadata(ctx, topics)
+}
+
+// c28SelfishBackend answers Metadata / FindCoordinator naming itself (node 7).
+type c28SelfishBackend struct {
+	ln   net.Listener
+	mu   sync.Mutex
+	keys []int16
+}
+
+func (b *c28SelfishBackend) serve() {
+	for {
+		c, err := b.ln.Accept()
+		if err != nil {
+			return
+		}
+		go func(c net.Conn) {
+			defer c.Close()
+			for {
+				frame, err := protocol.ReadFrame(c)
+				if err != nil {
+					return
+				}
+				header, req, err := protocol.ParseRequest(frame.Payload)
+				if err != nil {
+					return
+				}
+				b.mu.Lock()
+				b.keys = append(b.keys, header.APIKey)
+				b.mu.Unlock()
+				var resp kmsg.Response
+				switch r := req.(type) {
+				case *kmsg.MetadataRequest:
+					mr := kmsg.NewPtrMetadataResponse()
+					mr.Brokers = []kmsg.MetadataResponseBroker{{NodeID: 7, Host: "backend", Port: 1234}}
+					mr.ControllerID = 7
+					for _, t := range r.Topics {
+						mt := kmsg.NewMetadataResponseTopic()
+						mt.Topic, mt.TopicID = t.Topic, t.TopicID
+						pt := kmsg.NewMetadataResponseTopicPartition()
+						pt.Leader, pt.Replicas, pt.ISR = 7, []int32{7}, []int32{7}
+						mt.Partitions = append(mt.Partitions, pt)
+						mr.Topics = append(mr.Topics, mt)
+					}
+					resp = mr
+				case *kmsg.FindCoordinatorRequest:
+					fr := kmsg.NewPtrFindCoordinatorResponse()
+					fr.NodeID, fr.Host, fr.Port = 7, "backend", 1234
+					resp = fr
+				default:
+					return
+				}
+				if protocol.WriteFrame(c, protocol.EncodeResponse(header.CorrelationID, header.APIVersion, resp)) != nil {
+					return
+				}
+			}
+		}(c)
+	}
+}
+
+type c28ConnObs struct {
+	cs      c28Case
+	storeOK bool
+	replied bool
+	res     c28Result
+}
+
+// c28RunConn returns what the client observed per executed step and the first failure.
+func c28RunConn(cn c28Conn) ([]c28ConnObs, string, string, string) {
+	ln, err := net.Listen("tcp", "127.0.0.1:0")
+	if err != nil {
+		return nil, "harness", "harness-error", err.Error()
+	}
+	be := &c28SelfishBackend{ln: ln}
+	go be.serve()
+	defer ln.Close()
+	store := &c28FailStore{Store: metadata.NewInMemoryStore(c28ToMeta(cn.Snapshot))}
+	p := &proxy{store: store, advertisedHost: cn.Host, advertisedPort: cn.Port, backends: []string{ln.Addr().String()},
+		dialTimeout: 2 * time.Second, backendRetries: 1, apiVersions: generateProxyApiVersions(),
+		logger: slog.New(slog.NewTextHandler(io.Discard, nil))}
+	p.setReady(true)
+	cli, srv := net.Pipe()
+	done := make(chan struct{})
+	ctx, cancel := context.WithCancel(context.Background())
+	defer cancel()
+	go func() { p.handleConnection(ctx, srv); close(done) }()
+	var obs []c28ConnObs
+	oracle, key, what := "", "", ""
+	setFail := func(o, k, w string) {
+		if what == "" {
+			oracle, key, what = o, k, w
+		}
+	}
+	for i, st := range cn.Steps {
+		cs := st.Req
+		cs.Snapshot, cs.Host, cs.Port, cs.Ready = cn.Snapshot, cn.Host, cn.Port, true
+		store.mu.Lock()
+		store.mode = st.StoreFail
+		store.mu.Unlock()
+		_ = cli.SetDeadline(time.Now().Add(10 * time.Second))
+		o := c28ConnObs{cs: cs, storeOK: st.StoreFail == ""}
+		var frame *protocol.Frame
+		werr := protocol.WriteFrame(cli, c28ReqPayload(cs))
+		if werr == nil {
+			frame, werr = protocol.ReadFrame(cli)
+		}
+		if werr != nil { // connection closed: no reply
+			o.res = c28RunOn(cs, &c28Pre{err: werr})
+			obs = append(obs, o)
+			break
+		}
+		o.replied = true
+		o.res = c28RunOn(cs, &c28Pre{out: frame.Payload})
+		obs = append(obs, o)
+		if o.res.fail != "" {
+			if o.res.failOr == "harness" {
+				setFail("only_proxy", "conn-reply-undecodable", fmt.Sprintf("step %d (store %q): the client received a reply that does not decode as a proxy reply: %s", i, st.StoreFail, o.res.fail))
+			} else {
+				setFail(o.res.failOr, "conn-"+o.res.failKey, fmt.Sprintf("step %d through handleConnection (store %q): %s", i, st.StoreFail, o.res.fail))
+			}
+		}
+	}
+	cli.Close()
+	<-done
+	be.mu.Lock()
+	for _, k := range be.keys {
+		if k == protocol.APIKeyMetadata || k == protocol.APIKeyFindCoordinator {
+			setFail("only_proxy", "conn-backend-received-metadata", fmt.Sprintf("the backend received a request with api key %d: Metadata / FindCoordinator must be answered by the proxy itself", k))
+		}
+	}
+	be.mu.Unlock()
+	return obs, oracle, key, what
+}
+
+func c28GenConn(r *vRand) c28Conn {
+	var base c28Case
+	for {
+		base = c28Gen(r.Fork())
+		if base.Kind == "meta" {
+			break
+		}
+	}
+	cn := c28Conn{Snapshot: base.Snapshot, Host: base.Host, Port: base.Port}
+	var ids [][16]byte
+	for _, t := range base.Snapshot.Topics {
+		if t.ID != c28Zero {
+			ids = append(ids, t.ID)
+		} else {
+			ids = append(ids, metadata.TopicIDForName(*t.Name))
+		}
+	}
+	for k := r.Range(1, 3); k > 0; k-- {
+		st := c28ConnStep{Req: c28Case{Kind: "meta"}}
+		if r.Chance(15) {
+			st.Req.Kind, st.Req.Version = "coord", 3
+		} else {
+			c28GenReq(r, &st.Req, ids)
+		}
+		switch x := r.Intn(10); {
+		case x < 3:
+			st.StoreFail = "error"
+		case x < 5:
+			st.StoreFail = "timeout"
+		}
+		cn.Steps = append(cn.Steps, st)
+	}
+	return cn
+}
+
+func c28CoqConn(o c28ConnObs) string {
+	rts := make([]string, len(o.res.req))
+	for i, t := range o.res.req {
+		rts[i] = fmt.Sprintf("(%s, %s)", c28OptStr(t.Name), cqBytes(t.ID[:]))
+	}
+	obs := "None"
+	if o.replied {
+		obs = "(Some " + c28CoqCluster(o.res.obs) + ")"
+	}
+	return fmt.Sprintf("ConnCase %s %s %s (mkMReq %s %s) %s %s %s", cqBool(o.storeOK), cqZ(int64(o.cs.Version)), c28CoqCluster(o.res.store),
+		cqBool(o.res.reqAll), cqList(rts), cqStr(o.cs.Host), cqZ(int64(o.cs.Port)), obs)
+}
+
 // ---------------- Coq emission ----------------
 func c28I32s(v []int32) string {
 	items := make([]string, len(v))
@@ -835,7 +1052,62 @@ func TestVerifC28(t *testing.T) {
 			}
 		}
 	}
+	runConn := func(cn c28Conn) {
+		obs, oracle, key, what := c28RunConn(cn)
+		canon, _ := json.Marshal(cn)
+		rep.Count(string(canon), true)
+		rep.Hist("connection-stream")
+		for _, st := range cn.Steps {
+			if st.StoreFail != "" {
+				rep.Hist("connection-stream-store-" + st.StoreFail)
+			}
+		}
+		if what != "" {
+			shr := cn
+			shr.Steps = vShrink(cn.Steps, func(ss []c28ConnStep) bool {
+				if len(ss) == 0 {
+					return false
+				}
+				c := cn
+				c.Steps = ss
+				_, _, k2, w2 := c28RunConn(c)
+				return w2 != "" && k2 == key
+			})
+			if _, o2, k2, w2 := c28RunConn(shr); w2 != "" && k2 == key {
+				rep.Fail(o2, k2, w2, shr)
+			} else {
+				rep.Fail(oracle, key, what, cn)
+			}
+		}
+		for _, o := range obs {
+			if o.cs.Kind == "coord" {
+				if o.replied && o.res.failOr != "harness" {
+					coq = append(coq, c28Coq(o.cs, o.res))
+					jsons = append(jsons, string(canon))
+				}
+				continue
+			}
+			if o.replied && o.res.failOr == "harness" {
+				continue
+			}
+			coq = append(coq, c28CoqConn(o))
+			jsons = append(jsons, string(canon))
+		}
+	}
 	if rc := vReplayCase(); rc != nil {
+		var probeC struct {
+			Steps []json.RawMessage `json:"steps"`
+		}
+		if json.Unmarshal(rc, &probeC) == nil && len(probeC.Steps) > 0 {
+			var cn c28Conn
+			if err := json.Unmarshal(rc, &cn); err != nil {
+				t.Fatalf("bad replay: %v", err)
+			}
+			runConn(cn)
+			rep.Cases("C28", "From KS Require Import lib.Base model.Proxy corr.ProxyCorr.", "mcase", "check_mcase", coq, jsons)
+			rep.Write()
+			return
+		}
 		var probe struct {
 			Reqs []json.RawMessage `json:"reqs"`
 		}
@@ -890,6 +1162,22 @@ func TestVerifC28(t *testing.T) {
 				{Kind: "meta", Ready: true, Version: 9, Topics: []c28ReqTopic{}},
 				{Kind: "meta", Ready: true, Version: 5, Topics: []c28ReqTopic{{Name: &nb}}},
 				{Kind: "coord", Ready: true, Version: 3}}})
+		}
+		// connection stream: corpus (store fails while a backend is reachable), then generated
+		{
+			na := "a"
+			snap := c28Cluster{Brokers: []c28Broker{{1, "b1", 9092}}, Controller: 1, Topics: []c28Topic{
+				{Name: &na, ID: [16]byte{0xa}, Parts: []c28Part{{ID: 0, Leader: 1, Epoch: 3, Replicas: []int32{1}, ISR: []int32{1}}}}}}
+			for _, mode := range []string{"error", "timeout", ""} {
+				runConn(c28Conn{Snapshot: snap, Host: "p", Port: 9092, Steps: []c28ConnStep{
+					{Req: c28Case{Kind: "coord", Version: 3}},
+					{Req: c28Case{Kind: "meta", Version: 9, Topics: []c28ReqTopic{{Name: &na}}}},
+					{Req: c28Case{Kind: "meta", Version: 12, All: true}, StoreFail: mode}}})
+			}
+		}
+		nc := vN(80, 800)
+		for i := 0; i < nc; i++ {
+			runConn(c28GenConn(r.Fork()))
 		}
 		ng := vN(60, 800)
 		for i := 0; i < ng; i++ {
